@@ -1,4 +1,5 @@
 import RV.C16.Lemmas
+import RV.C16.Tables
 /-
   C16 — "SPARQL results survive their exchange formats": property statements and theorems.
 
@@ -71,7 +72,20 @@ def Statement_csv_preserves : Prop :=
     ∃ f : Cell → Cell, (∀ c, cellStr (f c) = csvSpec c) ∧
       csvRoundTrip (.select vars rows) = .ok (.select vars (rows.map (fun r => r.map f)))
 
+/-- the reader model's ECHAR decoding is exactly `rdflib.compat._string_escape_map`
+    (`Tables.stringEscapeMap` is regenerated from the source on every run) -/
+def Statement_escape_table : Prop :=
+  (∀ p ∈ Tables.stringEscapeMap, unescChar p.1 = some p.2) ∧
+  ∀ e d, unescChar e = some d → (e, d) ∈ Tables.stringEscapeMap
+
 /-! ### Theorems -/
+
+theorem escape_table : Statement_escape_table := by
+  refine ⟨by decide, ?_⟩
+  intro e d h
+  unfold unescChar at h
+  split_ifs at h <;> (cases h; subst_vars; decide)
+
 
 theorem json_roundtrip : Statement_json_roundtrip :=
   ⟨ofJson_toJson_ask, fun _ _ h hl => ofJson_toJson_select h hl⟩
